@@ -358,6 +358,9 @@ def gen_cases(tier, seed):
     for i, b in enumerate(gen_cases_corpus(n, seed + 9, opts={'max_stmts': 7, 'max_depth': 2, 'tags': True, 'input': False},
                                            with_repo=False)):
         cs.append({'kind': 'stepcover', 'base': b, 'k': i})
+    for c_ in cs:
+        if c_.get('base') and c_['base'].get('src') == 'gen' and c_['k'] % 3 == 1:
+            c_['procs_first'] = True
     return cs
 
 
@@ -447,6 +450,15 @@ def run_case(case):
         st['error_handler_programs'] = 1
     else:
         text, script, meta = cases.source_of(case['base'])
+    if case.get('procs_first'):
+        # the same program with its SUB/FUNCTION blocks written before the module-level code (source order and address order
+        # of the statements then differ: procedures are always emitted after the main code)
+        ls_ = text.split('\n')
+        cut = next((i for i, l_ in enumerate(ls_) if l_.upper().startswith(('SUB ', 'FUNCTION '))), None)
+        if cut:
+            last_end = max(i for i, l_ in enumerate(ls_) if l_.upper().startswith(('END SUB', 'END FUNCTION')))
+            text = '\n'.join(ls_[cut:last_end + 1] + ['CONST zafterprocs% = 1', 'REM module-level code'] + ls_[:cut] + ls_[last_end + 1:])
+            st['procs_first_programs'] = 1
     lines = text.split('\n')
     tagline = {}
     for li, ltxt in enumerate(lines):
